@@ -26,9 +26,10 @@ import (
 var (
 	// A line of an event stream ends with LF, CR or CRLF and an event ends with an empty line,
 	// see https://html.spec.whatwg.org/multipage/server-sent-events.html#parsing-an-event-stream.
+	// Line ends may be mixed within one stream, so an empty line ends with LF LF, CR CR, LF CR or CRLF.
 	// Flushing after CRLF covers events terminated by CRLF CRLF and, when the stream is chunked,
 	// the end of every chunk.
-	sseFlushPatterns   = [][2]byte{{'\n', '\n'}, {'\r', '\r'}, {'\r', '\n'}}
+	sseFlushPatterns   = [][2]byte{{'\n', '\n'}, {'\r', '\r'}, {'\n', '\r'}, {'\r', '\n'}}
 	chunkFlushPatterns = [][2]byte{{'\r', '\n'}}
 )
 
